@@ -1,8 +1,13 @@
 #!/bin/bash
 # run every registered check's quick tier for several VERIF_SEED values (alarm hunt)
-cd /verif
+# (works from any snapshot of /verif: paths are relative to this script; with
+# `vp run --with-repo` the repository snapshot is used)
+cd "$(dirname "$0")/.."
+[ -n "$VP_RUN_REPO" ] && export VERIF_REPO_SRC=$VP_RUN_REPO/src
+export VERIF_EVIDENCE=${VERIF_EVIDENCE:-/dev/shm/ms-evidence.$$}
+export VERIF_REPLAYS=${VERIF_REPLAYS:-$(pwd)/replays}
 for S in "$@"; do
   for P in $(python3 -c "import json;print(' '.join(c['property_id'] for c in json.load(open('MANIFEST.json'))['checks']))"); do
-    VERIF_SEED=$S VERIF_EVIDENCE=/dev/shm/ms-evidence ./check $P --tier quick 2>&1 | grep -E "^VIOLATION|signature=|quick:|HARNESS|KNOWN" | cut -c1-220 | sed "s/^/[seed $S] /"
+    VERIF_SEED=$S ./check $P --tier quick 2>&1 | grep -E "^VIOLATION|signature=|quick:|HARNESS|KNOWN" | cut -c1-220 | sed "s/^/[seed $S] /"
   done
 done
